@@ -367,11 +367,19 @@ func init() {
 		Name:  "COPYF",
 		Doc:   "every field of T is carried by each copy constructor (ShallowCopy/WithKey/WithPRNG/AtLevel/CopyNew/Clone/WithParams) of T on every return, unless no code in the module reads the field",
 		Props: []string{"C10", "C18", "C16", "C14", "C17", "C20", "C07"},
-		Run:   runCopyF,
+		Run: func(c *core.Ctx) []ob {
+			out := scanCopyF(c)
+			out = append(out, core.Floor("COPYF", []string{"C10"}, "copy constructors", c.Stats["copyf_constructors"], 40)...)
+			out = append(out, core.Floor("COPYF", []string{"C10"}, "field obligations", c.Stats["copyf_fields"], 120)...)
+			for _, o := range control(c, "COPYF", scanCopyF, "#field=conf") {
+				out = append(out, withProps(o, "C10"))
+			}
+			return out
+		},
 	})
 }
 
-func runCopyF(c *core.Ctx) []ob {
+func scanCopyF(c *core.Ctx) []ob {
 	var out []ob
 	reads := fieldReads(c.Program)
 	ctors := findCopyCtors(c.Program)
@@ -438,7 +446,5 @@ func runCopyF(c *core.Ctx) []ob {
 	}
 	c.Stats["copyf_constructors"] = nCtor
 	c.Stats["copyf_fields"] = nField
-	out = append(out, core.Floor("COPYF", []string{"C10"}, "copy constructors", nCtor, 40)...)
-	out = append(out, core.Floor("COPYF", []string{"C10"}, "field obligations", nField, 120)...)
 	return out
 }
